@@ -51,7 +51,15 @@ def cut(rng, tree, block, depth_left, level, rootdir, chain):
         if not block.items:
             break
         i = rng.randrange(len(block.items))
+        twins = [x for x in range(len(block.items) - 1) if block.items[x][0] == "block" and block.items[x + 1][0] == "block"
+                 and render_items([block.items[x]]) == render_items([block.items[x + 1]])]
+        if twins and rng.random() < .7:
+            i = rng.choice(twins)
         j = rng.randint(i + 1, min(len(block.items), i + 3))
+        twin = (i + 1 < len(block.items) and block.items[i][0] == "block" and block.items[i + 1][0] == "block"
+                and render_items([block.items[i]]) == render_items([block.items[i + 1]]))
+        if twin:
+            j = i + 1           # two identical repeatable blocks: ONE file, included twice
         piece = block.items[i:j]
         if any(it[0] == "include" for it in piece):
             continue
@@ -72,7 +80,11 @@ def cut(rng, tree, block, depth_left, level, rootdir, chain):
             text = text.replace("\n", "\r\n")
         tree.files[name] = text
         line, target = include_line(rng, name, rootdir if rng.random() < .2 else None)
-        block.items[i:j] = [("include", target, line)]
+        if twin:
+            line2, _ = include_line(rng, name, None)
+            block.items[i:i + 2] = [("include", target, line), ("include", name, line2)]
+        else:
+            block.items[i:j] = [("include", target, line)]
         reached = max(reached, 1 + sub_depth)
     return reached
 
@@ -106,6 +118,11 @@ def build_tree(rng, want_depth):
     t = rng.choice(["map", "layer", "class"])
     b = gen.gen_block(rng, t, depth=2, max_items=6)
     hostile_strings(rng, b)
+    # two identical repeatable blocks side by side (the same CLASS / STYLE / LAYER written twice): may become one file included twice
+    reps = [i for i, it in enumerate(b.items) if it[0] == "block" and len(it) > 3 and it[3]]
+    if reps and rng.random() < .5:
+        i = rng.choice(reps)
+        b.items.insert(i + 1, copy.deepcopy(b.items[i]))
     original = gen.render(b)
     tree = Tree()
     work = copy.deepcopy(b)
